@@ -203,19 +203,20 @@ def setLoop (nm : Names) : Bool → List Str → Looped SetErr
       | [] => .ok (os, [])
       | _ :: rest' => prependO os (setLoop nm p' rest')
 
+/-- what follows the loop in set's `parse`: drop one `--` / `-`; positional parameters are replaced iff
+    a separator was there or operands remain -/
+def finishSet : Looped SetErr → Except SetErr SetCmd
+  | .error e => .error e
+  | .ok (os, []) => .ok (.modify os none)
+  | .ok (os, a :: rest) =>
+    if a = ['-', '-'] ∨ a = ['-'] then .ok (.modify os (some rest)) else .ok (.modify os (some (a :: rest)))
+
 /-- set's `parse` -/
 def setParse (nm : Names) (portable : Bool) (args : List Str) : Except SetErr SetCmd :=
-  match args with
-  | [] => .ok .printVariables
-  | [['-', 'o']] => .ok .printHuman
-  | [['+', 'o']] => .ok .printMachine
-  | _ =>
-    match setLoop nm portable args with
-    | .error e => .error e
-    | .ok (os, rem) =>
-      match rem with
-      | [] => .ok (.modify os none)
-      | a :: rest => if a = ['-', '-'] ∨ a = ['-'] then .ok (.modify os (some rest)) else .ok (.modify os (some (a :: rest)))
+  if args = [] then .ok .printVariables
+  else if args = [['-', 'o']] then .ok .printHuman
+  else if args = [['+', 'o']] then .ok .printMachine
+  else finishSet (setLoop nm portable args)
 
 /-! ## the shell's own command line -/
 
@@ -350,23 +351,26 @@ def applyLong (o : ShLong) (r : Run) : Run :=
   | .help => r
   | .version => r
 
+def pushOptions (os : List (Str × Bool)) (r : Run) : Run := { r with options := r.options ++ os }
+
+/-- after a cluster: the options seen before `-V` have been pushed, but `Parse::Version` discards them -/
+def ShStep.ofShort : Except ShErr (ShortOut × Bool) → ShStep
+  | .error e => .fail e
+  | .ok ((os, took, p'), v) => if v then .finish .version else .go (pushOptions os) took p'
+
+def ShStep.ofLong : Except ShErr (ShLong × Bool × Bool) → ShStep
+  | .error e => .fail e
+  | .ok (.help, _, _) => .finish .help
+  | .ok (.version, _, _) => .finish .version
+  | .ok (o, took, p') => .go (applyLong o) took p'
+
 def shStep (nm : Names) (p : Bool) (a : Str) (next : Option Str) : ShStep :=
   match shortSign a with
-  | some negate =>
-    (match shShortLoop nm negate next p (a.drop 1) with
-     | .error e => .fail e
-     | .ok ((os, took, p'), v) =>
-       -- the options seen before `-V` have been pushed, but `Parse::Version` discards them
-       if v then .finish .version else .go (fun r => { r with options := r.options ++ os }) took p')
+  | some negate => ShStep.ofShort (shShortLoop nm negate next p (a.drop 1))
   | none =>
     match isLongArg a with
     | none => .stop
-    | some negate =>
-      match shLong nm p negate (a.drop 2) next with
-      | .error e => .fail e
-      | .ok (.help, _, _) => .finish .help
-      | .ok (.version, _, _) => .finish .version
-      | .ok (o, took, p') => .go (applyLong o) took p'
+    | some negate => ShStep.ofLong (shLong nm p negate (a.drop 2) next)
 
 /-- the option loop of `parse`: the `Run` so far and the remaining arguments, or an early result -/
 def shLoop (nm : Names) : Bool → Run → List Str → Except ShErr (ShParse ⊕ (Run × List Str))
@@ -497,6 +501,15 @@ def setSignal (st : KillState) (new : Option Int) : Except KillErr KillState :=
   | none => .error .invalidSignal
   | some n => if st.hasOrigin then .error .multipleSignals else .ok { st with signal := n, hasOrigin := true }
 
+def withTook (took : Bool) : Except KillErr KillState → Except KillErr (KillState × Bool)
+  | .ok st => .ok (st, took)
+  | .error e => .error e
+
+/-- `invalid_signal_to_unknown_option` -/
+def invalidToUnknown : Except KillErr KillState → Except KillErr KillState
+  | .error .invalidSignal => .error .unknownOption
+  | r => r
+
 /-- the `while let Some(option) = chars.next()` loop on one option argument (`options` = the text
     after `-`, `chars` = what is left of it); result: new state and whether the next argument was taken -/
 def killChars (nm : Names) (portable : Bool) (options : Str) (next : Option Str) :
@@ -513,25 +526,18 @@ def killChars (nm : Names) (portable : Bool) (options : Str) (next : Option Str)
           if portable ∧ (nonPortableSignalNumber arg).isSome then
             .error (.nonPortableSignalNumber ((nonPortableSignalNumber arg).getD 0))
           else if portable ∧ sigPrefixOnly nm arg then .error .nonPortableSignalPrefix
-          else match setSignal st (parseSignal nm arg allow) with
-            | .ok st' => .ok (st', true)
-            | .error e => .error e
+          else withTook true (setSignal st (parseSignal nm arg allow))
       else
         if portable ∧ (nonPortableSignalNumber remainder).isSome then
           .error (.nonPortableSignalNumber ((nonPortableSignalNumber remainder).getD 0))
         else if portable ∧ (parseSignal nm remainder allow).isSome then .error .unseparatedSignalArgument
         else if portable ∧ (sigPrefixOnly nm remainder ∨ sigPrefixOnly nm options) then .error .nonPortableSignalPrefix
-        else match setSignal st ((parseSignal nm remainder allow).orElse fun _ => parseSignal nm options allow) with
-          | .ok st' => .ok (st', false)
-          | .error e => .error e
+        else withTook false (setSignal st ((parseSignal nm remainder allow).orElse fun _ => parseSignal nm options allow))
     else if c = 'l' then killChars nm portable options next { st with list := true } remainder
     else if c = 'v' then killChars nm portable options next { st with verbose := true } remainder
     else
       if portable ∧ sigPrefixOnly nm options then .error .nonPortableSignalPrefix
-      else match setSignal st (parseSignal nm options allow) with
-        | .ok st' => .ok (st', false)
-        | .error .invalidSignal => .error .unknownOption
-        | .error e => .error e
+      else withTook false (invalidToUnknown (setSignal st (parseSignal nm options allow)))
 
 /-- is the argument examined as an option (`strip_prefix('-')` non-empty)? -/
 def killIsOption : Str → Bool
